@@ -110,13 +110,19 @@ Definition jit_set_pos (j : journal) (it : jit) (pos : N * N) : jit :=
 
 (* ---- partition.JIterator.Get (RANGE queries), the window between the chunk iterator's io.EOF and the chunk selector's look
    at the chunks: the chunk iterator has reported EOF on the journal as it was (`it` stands at the end of its chunk there);
-   the selector - ensureChkIt after advanceChunk - sees the journal j', which a writer's flush may have extended meanwhile.
-   With a following chunk in j' the iterator goes on there (true); without one the selector answers with the end of the
-   last chunk as it is NOW, and `restore` = the position is put back to eofPos when that is a later end of the same chunk
-   (`jit.pos.CId == eofPos.CId && jit.pos.Idx > eofPos.Idx`; the comparison the other way round never restores: false) *)
-Definition eof_step (restore : bool) (j' : journal) (it : jit) : jit * bool :=
+   the selector sees the journal j', which a writer's flush may have extended meanwhile.
+   `reresolve` = true, the code: the chunk is closed and the selector is asked about the position that was NOT read
+   (ensureChkIt with the unchanged pos): it answers with that position in the chunk as it is now.
+   `reresolve` = false, the code before that repair: advanceChunk first steps to {CId+1, 0}; with a following chunk in j'
+   the iterator goes on there, without one the selector answers with the end of the last chunk as it is NOW, and
+   `restore` = the position is put back to eofPos when that is a later end of the same chunk
+   (`jit.pos.CId == eofPos.CId && jit.pos.Idx > eofPos.Idx`; the comparison the other way round never restores: false).
+   (With `reresolve` the restore test is still in the code; it can no longer fire: the answer for an unchanged position in an
+   existing chunk is never EOF with a larger index of that chunk.) *)
+Definition eof_step (reresolve restore : bool) (j' : journal) (it : jit) : jit * bool :=
   let eofpos := jit_pos it in
-  let '(it', ok) := ensure j' (advance it) in
+  let asked := if reresolve then mkJit (j_cid it) (j_idx it) None (j_bad it) else advance it in
+  let '(it', ok) := ensure j' asked in
   if ok then (it', true)
   else if restore && (j_cid it' =? fst eofpos)%N && (snd eofpos <? j_idx it')%N
        then (mkJit (fst eofpos) (snd eofpos) None (j_bad it'), false)
@@ -511,6 +517,9 @@ Definition repo_clears_fields : bool := true.
 (* true = provider.GetOrCreate drops a cached cursor when the request names another Pos than the cursor's and builds a
    new one (the code); false = it re-positioned the cached cursor (the code before the repair) *)
 Definition repo_strict_pos : bool := true.
-(* true = partition.JIterator.Get keeps the position of the first unread record when the selector answers with a later
-   end of the same chunk (the code, since /repo ee8da2c) *)
+(* partition.JIterator.Get after the chunk iterator's io.EOF: true = the selector is asked about the unread position (the
+   code); false = the iterator stepped to the next chunk id first (the code before the repair of the roll-over finding) *)
+Definition repo_reresolves_eof : bool := true.
+(* true = the position of the first unread record is kept when the selector answers with a later end of the same chunk (the
+   code, since /repo ee8da2c; it matters for the old stepping only) *)
 Definition repo_restores_eof : bool := true.
